@@ -38,10 +38,11 @@ const (
 	opSerialize
 	opDeserialize
 	opStream
+	opEditOwn
 	opKinds
 )
 
-var concOpNames = [...]string{"parse-small", "parse-large", "parseND", "traverse", "clone+edit", "serialize", "deserialize", "stream"}
+var concOpNames = [...]string{"parse-small", "parse-large", "parseND", "traverse", "clone+edit", "serialize", "deserialize", "stream", "edit-in-place"}
 
 // concWorker is the per-goroutine state; nothing in it is shared with other workers.
 type concWorker struct {
@@ -58,7 +59,7 @@ type concWorker struct {
 func drawProgram(c *Chooser, n int) []concOp {
 	ops := make([]concOp, n)
 	for i := range ops {
-		k := c.Pick("cop", 4, 2, 1, 3, 3, 6, 5, 1)
+		k := c.Pick("cop", 4, 2, 1, 3, 3, 6, 5, 1, 4)
 		ops[i] = concOp{kind: k, seed: c.U64("opseed"), mode: c.Intn("cmode", 4)}
 	}
 	// make sure there is something to work on first
@@ -165,6 +166,19 @@ func (w *concWorker) step(i int) uint64 {
 		if c.Intn("keepclone", 2) == 1 {
 			w.obj = co
 		}
+	case opEditOwn:
+		if w.obj == nil || !w.obj.readable() || len(w.obj.pj.Tape) > 20000 {
+			return f.h
+		}
+		for k := 0; k < 1+c.Intn("nedits", 3) && !r.failed(); k++ {
+			if c.Intn("editk", 3) != 0 {
+				opSet(r, w.obj, what)
+			} else {
+				opDelete(r, w.obj, what)
+			}
+		}
+		readBack(r, w.obj, bInto|bAdv, what, nil)
+		f.u64(digestRoots(w.obj.model))
 	case opSerialize:
 		if w.obj == nil || !w.obj.readable() {
 			return f.h
